@@ -35,6 +35,7 @@ func (d *dec) object(addr uint64, path string) *Object {
 	external := false
 	var unsup []string
 	seen := map[uint16]bool{}
+	attrNames := map[string]bool{}
 	for i := range h.msgs {
 		m := h.msgs[i]
 		o.MsgTypes = append(o.MsgTypes, m.typ)
@@ -88,11 +89,10 @@ func (d *dec) object(addr uint64, path string) *Object {
 				o.Filters = d.decodePipeline(body, at)
 			case mAttribute:
 				a := d.decodeAttribute(body, at)
-				for _, p := range o.Attrs {
-					if p.Name == a.Name {
-						d.fail("%s: attribute name %q occurs twice", what, a.Name)
-					}
+				if attrNames[a.Name] {
+					d.fail("%s: attribute name %q occurs twice", what, a.Name)
 				}
+				attrNames[a.Name] = true
 				o.Attrs = append(o.Attrs, a)
 			case mLink:
 				l := d.decodeLink(body, at, h.version != 1)
@@ -401,6 +401,10 @@ func (d *dec) denseAttrs(o *Object, ai *linkInfoMsg) {
 	}
 	_ = idLen
 	var prevHash uint32
+	names := map[string]bool{}
+	for _, a := range o.Attrs {
+		names[a.Name] = true
+	}
 	for i, r := range bt.records {
 		var id []byte
 		if hashAt == 0 {
@@ -422,11 +426,10 @@ func (d *dec) denseAttrs(o *Object, ai *linkInfoMsg) {
 			d.fail("B-tree v2 at 0x%x (attribute name index of %s): record #%d (hash 0x%08x) does not sort after record #%d (hash 0x%08x)", bta, o.Path, i, hash, i-1, prevHash)
 		}
 		prevHash = hash
-		for _, p := range o.Attrs {
-			if p.Name == a.Name {
-				d.fail("B-tree v2 at 0x%x (attribute name index of %s): attribute name %q occurs twice", bta, o.Path, a.Name)
-			}
+		if names[a.Name] {
+			d.fail("B-tree v2 at 0x%x (attribute name index of %s): attribute name %q occurs twice", bta, o.Path, a.Name)
 		}
+		names[a.Name] = true
 		o.Attrs = append(o.Attrs, a)
 	}
 	if uint64(len(bt.records)) != fh.nManaged+fh.nHuge+fh.nTiny {
